@@ -223,7 +223,7 @@ def run(ctx):
                     extra = set()  # inline atoms are never point-sized: they fail where only badly-sized heap atoms fail
                 ck.ob("R03c", f"{f.path}|arms", not extra, "the inline-integer arm fails only with errors the heap arm can also produce",
                       site=f.where(b), detail={"inline": sorted(small), "heap": sorted(heap)})
-    ck.floor("representation matches", n_sites, 30)
+    ck.floor("representation matches", n_sites, 22)
 
     # ---------------------------------------------------------------- R03d
     users = {}
